@@ -310,7 +310,7 @@ def alphabet(view, rich_initial=True):
     add("--", True)
     for t in ["-5", "x=y", "-z", "-zq", "--zzz=1", "-", "=", "-=", "--=x", "abc"]:
         add(t)
-    red = red[:14]
+    red = red[:13]
     mid = list(red)
     for t in full[::2] + full[1::2]:
         if len(mid) >= 40:
@@ -731,7 +731,7 @@ def argvs_for(bench, ctx, rng):
             out.append([rng.choice(full) for _ in range(rng.choice([3, 3, 4]))])
     else:
         out += [list(t) for t in itertools.product(red, repeat=3)]
-        for _ in range(1000):
+        for _ in range(500):
             out.append([rng.choice(full) for _ in range(3)])
     return out, full, red
 
@@ -860,7 +860,7 @@ def run(ctx):
         run_bench(bench, argvs, ctx, out, drv, "exh")
     out.exhaustive = True
     # 2. random signature sets x random fuzz
-    nsig = ctx.n(220, 4000)
+    nsig = ctx.n(170, 4000)
     built = 0
     while built < nsig:
         sig = rand_sig(rng)
@@ -874,7 +874,7 @@ def run(ctx):
         argvs = [fuzz_argv(bench, full, rng) for _ in range(40)]
         run_bench(bench, argvs, ctx, out, drv, "fuzz")
     # 3. parses interleaved with other parses (re-entrant from a kind callable; two threads with a deterministic handshake)
-    for case in interleave_cases(rng, ctx.n(400, 4000)):
+    for case in interleave_cases(rng, ctx.n(300, 4000)):
         try:
             why, nontrivial = interleave_case(case)
         except common.Hang:
